@@ -39,7 +39,7 @@ func (m *Model) Ask(line string) string {
 	if strings.ContainsAny(line, "\n") {
 		panic("newline in model command")
 	}
-	if _, err := io.WriteString(m.in, line+"\n"); err != nil {
+	if _, err := io.WriteString(m.in, line+"\n(sync)\n"); err != nil {
 		panic(fmt.Sprintf("model write: %v", err))
 	}
 	resp, err := m.out.ReadString('\n')
@@ -47,6 +47,41 @@ func (m *Model) Ask(line string) string {
 		panic(fmt.Sprintf("model read: %v (command %.200s)", err, line))
 	}
 	return strings.TrimRight(resp, "\n")
+}
+
+// AskAll pipelines many commands: a writer goroutine feeds the co-process while the
+// answers are read, so the cost of a pipe round trip is paid once per batch.
+func (m *Model) AskAll(lines []string) []string {
+	done := make(chan error, 1)
+	go func() {
+		var b strings.Builder
+		for _, l := range lines {
+			b.WriteString(l)
+			b.WriteString("\n")
+			if b.Len() > 1<<16 {
+				if _, err := io.WriteString(m.in, b.String()); err != nil {
+					done <- err
+					return
+				}
+				b.Reset()
+			}
+		}
+		b.WriteString("(sync)\n")
+		_, err := io.WriteString(m.in, b.String())
+		done <- err
+	}()
+	out := make([]string, len(lines))
+	for i := range lines {
+		resp, err := m.out.ReadString('\n')
+		if err != nil {
+			panic(fmt.Sprintf("model read: %v", err))
+		}
+		out[i] = strings.TrimRight(resp, "\n")
+	}
+	if err := <-done; err != nil {
+		panic(fmt.Sprintf("model write: %v", err))
+	}
+	return out
 }
 
 func (m *Model) Close() {
